@@ -98,10 +98,11 @@ func main() {
 		w := bufio.NewWriterSize(os.Stdout, 1<<20)
 		defer w.Flush()
 		lastFlush := time.Now()
+		flushEach := os.Getenv("VERIF_FLUSH_EACH") != ""
 		for sc.Scan() {
 			// answers reach the checker while the run is in progress: it watches for progress, and
 			// what was answered before a crash or a hang must not be lost in the buffer
-			if w.Buffered() > 0 && time.Since(lastFlush) > 50*time.Millisecond {
+			if w.Buffered() > 0 && (time.Since(lastFlush) > 50*time.Millisecond || flushEach) {
 				w.Flush()
 				lastFlush = time.Now()
 			}
@@ -110,6 +111,12 @@ func main() {
 			if len(f) == 0 {
 				fmt.Fprintln(w, "")
 				continue
+			}
+			if len(f) > 1 && f[1] == "new" && w.Buffered() > 0 {
+				// a sequence starts: everything answered so far is on disk, so that if the implementation
+				// hangs, the first unanswered operation lies in the sequence that hangs
+				w.Flush()
+				lastFlush = time.Now()
 			}
 			c, ok := components[f[0]]
 			if !ok {
